@@ -122,3 +122,46 @@ Theorem C12_load_fault : forall dec file codec sched reqs ord off k,
   load_block_sched dec file codec sched reqs off = load_block dec file codec ord off.
 Proof. exact load_block_fault. Qed.
 Print Assumptions C12_load_fault.
+
+(* ================= the chunk creator of the sorter =================
+   write_chunk and merge_chunks each begin with ChunkCreator::create; with a creator failing its call
+   number j the insert (or the final call) during which that call happens returns exactly the creator's
+   error, every earlier call is unchanged, and a creator that never fails gives the plain sorter.  The
+   driver evaluates fs_run for every creator call of every faults case and compares the failing call index
+   and the error with the implementation's. *)
+From Grenad.proofs Require Import SorterFault.
+
+Theorem C12_sorter_create_quiet : forall c mf ins, snd (fs_run c cr_never mf ins) = sorter_run c mf ins.
+Proof. exact fs_run_never. Qed.
+Print Assumptions C12_sorter_create_quiet.
+
+Theorem C12_sorter_create_fault : forall mf j e c st k v st', s_insert c mf st k v = Done st' ->
+  creates (ss_events st) <= creates (ss_events st') /\
+  (j < creates (ss_events st) \/ creates (ss_events st') <= j ->
+     fs_insert c (cr_fail_at j e) mf st k v = Done st') /\
+  (creates (ss_events st) <= j < creates (ss_events st') ->
+     fs_insert c (cr_fail_at j e) mf st k v = Fail e).
+Proof. exact sorter_create_fault. Qed.
+Print Assumptions C12_sorter_create_fault.
+
+Theorem C12_sorter_run_create_fault : forall mf j e c pre k v post st st',
+  s_inserts c mf (s_new c) pre = Done st -> s_insert c mf st k v = Done st' ->
+  creates (ss_events st) <= j < creates (ss_events st') ->
+  fs_run c (cr_fail_at j e) mf (pre ++ (k, v) :: post) = (len pre, Fail e).
+Proof. exact sorter_run_create_fault. Qed.
+Print Assumptions C12_sorter_run_create_fault.
+
+Theorem C12_sorter_finish_create_fault : forall mf j e c ins st out,
+  s_inserts c mf (s_new c) ins = Done st -> s_finish mf st = Done out ->
+  (creates (ss_events st) = j -> fs_run c (cr_fail_at j e) mf ins = (len ins, Fail e)) /\
+  (creates (ss_events st) < j -> fs_run c (cr_fail_at j e) mf ins = (len ins, Done (fst out))).
+Proof. exact sorter_finish_create_fault. Qed.
+Print Assumptions C12_sorter_finish_create_fault.
+
+(* non-vacuity: a 64-byte budget spills on the second 24-byte entry: create call 0 fails that insert *)
+Example C12_create_fault_example :
+  let c := mk_scfg 64 false 2 64 in
+  let e := ([1], [2;2;2;2;2;2;2;2;2;2;2;2;2;2;2;2;2;2;2;2;2;2;2]) in
+  fs_run c (cr_fail_at 0 (EIo 7)) mf_concat [e; e; e; e] = (1, Fail (EIo 7)) /\
+  (exists out, fs_run c cr_never mf_concat [e; e; e; e] = (4, Done out)).
+Proof. split; [vm_compute; reflexivity|eexists; vm_compute; reflexivity]. Qed.
